@@ -1,11 +1,819 @@
 package rig
 
-import "time"
+import (
+	"context"
+	"fmt"
+	"net"
+	"os"
+	"sort"
+	"strings"
+	"sync"
+	"sync/atomic"
+	"time"
 
-// P4d is the harness P4Runtime server (implemented in p4d_impl.go later).
-type P4d struct{ Addr string }
+	//nolint:staticcheck // the P4Runtime stubs are golang/protobuf v1 messages
+	"github.com/golang/protobuf/proto"
+	p4cfg "github.com/p4lang/p4runtime/go/p4/config/v1"
+	p4 "github.com/p4lang/p4runtime/go/p4/v1"
+	"google.golang.org/genproto/googleapis/rpc/code"
+	gstatus "google.golang.org/genproto/googleapis/rpc/status"
+	"google.golang.org/grpc"
+	"google.golang.org/grpc/codes"
+	"google.golang.org/grpc/status"
+	"google.golang.org/protobuf/protoadapt"
+)
 
-func NewP4d(addr string) (*P4d, error)            { return &P4d{Addr: addr}, nil }
-func (p *P4d) LogLen() int                        { return 0 }
-func (p *P4d) WaitQuiet(max time.Duration) bool  { return true }
-func (p *P4d) WaitReady(max time.Duration) bool  { return true }
+// PField is one decoded match field.
+type PField struct {
+	Name      string
+	Kind      string // EXACT | LPM | TERNARY | RANGE
+	Value     uint64
+	Mask      uint64
+	PrefixLen int32
+	Low, High uint64
+}
+
+// PEntry is one decoded table entry.
+type PEntry struct {
+	Table    string
+	TableID  uint32
+	Match    map[string]PField
+	Action   string
+	Params   map[string]uint64
+	Priority int32
+	Key      string
+	Seq      int64
+}
+
+// PMeter is the configuration of one meter cell (nil config = default/reset).
+type PMeter struct {
+	Meter string
+	Index int64
+	Cfg   *p4.MeterConfig
+	Seq   int64
+}
+
+// PWrite is one logged Write RPC.
+type PWrite struct {
+	Seq     int64
+	N       int
+	Kinds   []string // "INSERT table", "MODIFY meter", ...
+	Failed  string   // injected failure, if any
+	Errors  []int32  // per-update canonical codes (all 0 when OK)
+	Updates []*p4.Update
+}
+
+// PktOut is one PacketOut received on the stream.
+type PktOut struct {
+	B   []byte
+	Seq int64
+}
+
+// P4d is an in-process P4Runtime server with P4Runtime write semantics, a fault plan and an
+// always-on P4Info conformance validator.
+type P4d struct {
+	p4.UnimplementedP4RuntimeServer
+
+	Addr string
+	lis  net.Listener
+	srv  *grpc.Server
+	Info *p4cfg.P4Info
+
+	mu       sync.Mutex
+	tables   map[uint32]map[string]*PEntry
+	meters   map[[2]int64]*PMeter // (meter id, index)
+	counters map[[2]int64]int64   // (counter id, index) -> number of writes
+	log      []PWrite
+	pkts     []PktOut
+	Invalid  []string // P4Info conformance violations (C16)
+	streams  []p4.P4Runtime_StreamChannelServer
+
+	// fault plan: fail the Write RPC whose ordinal (counted from Arm) equals FailAt
+	writeN  int
+	FailAt  map[int]string // ordinal -> "UNAVAILABLE" | "INVALID_ARGUMENT" | "RESOURCE_EXHAUSTED" | "NOT_FOUND"
+	Delay   func() time.Duration
+	inflight atomic.Int64
+	maxInfl  atomic.Int64
+	conns    atomic.Int64
+
+	tblByID   map[uint32]*p4cfg.Table
+	actByID   map[uint32]*p4cfg.Action
+	meterByID map[uint32]*p4cfg.Meter
+	ctrByID   map[uint32]*p4cfg.Counter
+}
+
+// LoadP4Info parses the P4Info text file shipped with the repository.
+func LoadP4Info(path string) (*p4cfg.P4Info, error) {
+	b, err := os.ReadFile(path)
+	if err != nil {
+		return nil, err
+	}
+	info := &p4cfg.P4Info{}
+	if err := proto.UnmarshalText(string(b), info); err != nil {
+		return nil, err
+	}
+	return info, nil
+}
+
+// P4InfoPath is where the shipped P4Info lives.
+func P4InfoPath() string {
+	repo := os.Getenv("VERIF_REPO")
+	if repo == "" {
+		repo = "/repo"
+	}
+	return repo + "/conf/p4/bin/p4info.txt"
+}
+
+// NewP4d starts a server on addr.
+func NewP4d(addr string) (*P4d, error) {
+	info, err := LoadP4Info(P4InfoPath())
+	if err != nil {
+		return nil, fmt.Errorf("p4info: %w", err)
+	}
+	lis, err := net.Listen("tcp", addr)
+	if err != nil {
+		return nil, err
+	}
+	d := &P4d{lis: lis, Addr: lis.Addr().String(), Info: info, FailAt: map[int]string{}}
+	d.index()
+	d.resetState()
+	d.serve()
+	return d, nil
+}
+
+func (d *P4d) index() {
+	d.tblByID, d.actByID, d.meterByID, d.ctrByID = map[uint32]*p4cfg.Table{}, map[uint32]*p4cfg.Action{}, map[uint32]*p4cfg.Meter{}, map[uint32]*p4cfg.Counter{}
+	for _, t := range d.Info.Tables {
+		d.tblByID[t.Preamble.Id] = t
+	}
+	for _, a := range d.Info.Actions {
+		d.actByID[a.Preamble.Id] = a
+	}
+	for _, m := range d.Info.Meters {
+		d.meterByID[m.Preamble.Id] = m
+	}
+	for _, c := range d.Info.Counters {
+		d.ctrByID[c.Preamble.Id] = c
+	}
+}
+
+func (d *P4d) resetState() {
+	d.tables = map[uint32]map[string]*PEntry{}
+	d.meters = map[[2]int64]*PMeter{}
+	d.counters = map[[2]int64]int64{}
+}
+
+func (d *P4d) serve() {
+	d.srv = grpc.NewServer()
+	p4.RegisterP4RuntimeServer(d.srv, d)
+	go d.srv.Serve(d.lis) //nolint:errcheck
+}
+
+// Stop stops serving but keeps the state (a switch that went away).
+func (d *P4d) Stop() {
+	d.srv.Stop()
+	d.mu.Lock()
+	d.streams = nil
+	d.mu.Unlock()
+}
+
+// Restart serves again on the same address with the same state.
+func (d *P4d) Restart() error {
+	var lis net.Listener
+	var err error
+	for i := 0; i < 100; i++ {
+		lis, err = net.Listen("tcp", d.Addr)
+		if err == nil {
+			break
+		}
+		time.Sleep(20 * time.Millisecond)
+	}
+	if err != nil {
+		return err
+	}
+	d.lis = lis
+	d.serve()
+	return nil
+}
+
+func (d *P4d) Close() { d.srv.Stop() }
+
+// ---- P4Runtime service ----
+
+func (d *P4d) Capabilities(context.Context, *p4.CapabilitiesRequest) (*p4.CapabilitiesResponse, error) {
+	return &p4.CapabilitiesResponse{P4RuntimeApiVersion: "1.3.0"}, nil
+}
+
+func (d *P4d) GetForwardingPipelineConfig(context.Context, *p4.GetForwardingPipelineConfigRequest) (*p4.GetForwardingPipelineConfigResponse, error) {
+	return &p4.GetForwardingPipelineConfigResponse{Config: &p4.ForwardingPipelineConfig{P4Info: d.Info, Cookie: &p4.ForwardingPipelineConfig_Cookie{Cookie: 1}}}, nil
+}
+
+func (d *P4d) SetForwardingPipelineConfig(context.Context, *p4.SetForwardingPipelineConfigRequest) (*p4.SetForwardingPipelineConfigResponse, error) {
+	return &p4.SetForwardingPipelineConfigResponse{}, nil
+}
+
+func (d *P4d) StreamChannel(s p4.P4Runtime_StreamChannelServer) error {
+	d.mu.Lock()
+	d.streams = append(d.streams, s)
+	d.mu.Unlock()
+	d.conns.Add(1)
+	defer d.conns.Add(-1)
+	for {
+		req, err := s.Recv()
+		if err != nil {
+			d.mu.Lock()
+			for i, x := range d.streams {
+				if x == s {
+					d.streams = append(d.streams[:i], d.streams[i+1:]...)
+					break
+				}
+			}
+			d.mu.Unlock()
+			return nil
+		}
+		switch u := req.Update.(type) {
+		case *p4.StreamMessageRequest_Arbitration:
+			_ = s.Send(&p4.StreamMessageResponse{Update: &p4.StreamMessageResponse_Arbitration{Arbitration: &p4.MasterArbitrationUpdate{
+				DeviceId: u.Arbitration.DeviceId, ElectionId: u.Arbitration.ElectionId, Status: &gstatus.Status{Code: int32(code.Code_OK)}}}})
+		case *p4.StreamMessageRequest_Packet:
+			d.mu.Lock()
+			d.pkts = append(d.pkts, PktOut{B: append([]byte(nil), u.Packet.Payload...), Seq: Events.Add(1)})
+			d.mu.Unlock()
+		}
+	}
+}
+
+// InjectDigest sends a digest carrying a UE address to every open stream.
+func (d *P4d) InjectDigest(ue uint32) int {
+	d.mu.Lock()
+	ss := append([]p4.P4Runtime_StreamChannelServer(nil), d.streams...)
+	d.mu.Unlock()
+	b := []byte{byte(ue >> 24), byte(ue >> 16), byte(ue >> 8), byte(ue)}
+	n := 0
+	for _, s := range ss {
+		if s.Send(&p4.StreamMessageResponse{Update: &p4.StreamMessageResponse_Digest{Digest: &p4.DigestList{
+			Data: []*p4.P4Data{{Data: &p4.P4Data_Bitstring{Bitstring: b}}}}}}) == nil {
+			n++
+		}
+	}
+	return n
+}
+
+func be(b []byte) uint64 {
+	var v uint64
+	for _, x := range b {
+		v = v<<8 | uint64(x)
+	}
+	return v
+}
+
+func fits(b []byte, width int32) bool {
+	// leading zero bytes are allowed; the value must fit the declared width
+	i := 0
+	for i < len(b) && b[i] == 0 {
+		i++
+	}
+	sig := b[i:]
+	if len(sig) == 0 {
+		return true
+	}
+	bits := (len(sig)-1)*8 + bitsLen(sig[0])
+	return int32(bits) <= width
+}
+
+func bitsLen(x byte) int {
+	n := 0
+	for x != 0 {
+		n++
+		x >>= 1
+	}
+	return n
+}
+
+func shortName(s string) string {
+	if i := strings.LastIndex(s, "."); i >= 0 {
+		return s[i+1:]
+	}
+	return s
+}
+
+// decode validates a table entry against the P4Info (recording violations) and decodes it.
+func (d *P4d) decode(te *p4.TableEntry, forWrite bool) (*PEntry, []string) {
+	var bad []string
+	t := d.tblByID[te.TableId]
+	if t == nil {
+		return nil, []string{fmt.Sprintf("table id %d does not exist in the P4Info", te.TableId)}
+	}
+	e := &PEntry{Table: shortName(t.Preamble.Name), TableID: te.TableId, Match: map[string]PField{}, Params: map[string]uint64{}, Priority: te.Priority}
+	needPrio := false
+	fdef := map[uint32]*p4cfg.MatchField{}
+	for _, f := range t.MatchFields {
+		fdef[f.Id] = f
+		if f.GetMatchType() == p4cfg.MatchField_TERNARY || f.GetMatchType() == p4cfg.MatchField_RANGE {
+			needPrio = true
+		}
+	}
+	var keyParts []string
+	for _, m := range te.Match {
+		f := fdef[m.FieldId]
+		if f == nil {
+			bad = append(bad, fmt.Sprintf("table %s: match field id %d does not belong to it", e.Table, m.FieldId))
+			continue
+		}
+		pf := PField{Name: f.Name}
+		w := f.Bitwidth
+		switch mt := m.FieldMatchType.(type) {
+		case *p4.FieldMatch_Exact_:
+			pf.Kind = "EXACT"
+			if f.GetMatchType() != p4cfg.MatchField_EXACT {
+				bad = append(bad, fmt.Sprintf("table %s field %s: EXACT match on a %v field", e.Table, f.Name, f.GetMatchType()))
+			}
+			if !fits(mt.Exact.Value, w) {
+				bad = append(bad, fmt.Sprintf("table %s field %s: value %x does not fit %d bits", e.Table, f.Name, mt.Exact.Value, w))
+			}
+			pf.Value = be(mt.Exact.Value)
+			keyParts = append(keyParts, fmt.Sprintf("%d=e%d", f.Id, pf.Value))
+		case *p4.FieldMatch_Lpm:
+			pf.Kind = "LPM"
+			if f.GetMatchType() != p4cfg.MatchField_LPM {
+				bad = append(bad, fmt.Sprintf("table %s field %s: LPM match on a %v field", e.Table, f.Name, f.GetMatchType()))
+			}
+			if !fits(mt.Lpm.Value, w) || mt.Lpm.PrefixLen < 0 || mt.Lpm.PrefixLen > w {
+				bad = append(bad, fmt.Sprintf("table %s field %s: LPM %x/%d does not fit %d bits", e.Table, f.Name, mt.Lpm.Value, mt.Lpm.PrefixLen, w))
+			}
+			pf.Value, pf.PrefixLen = be(mt.Lpm.Value), mt.Lpm.PrefixLen
+			keyParts = append(keyParts, fmt.Sprintf("%d=l%d/%d", f.Id, pf.Value, pf.PrefixLen))
+		case *p4.FieldMatch_Ternary_:
+			pf.Kind = "TERNARY"
+			if f.GetMatchType() != p4cfg.MatchField_TERNARY {
+				bad = append(bad, fmt.Sprintf("table %s field %s: TERNARY match on a %v field", e.Table, f.Name, f.GetMatchType()))
+			}
+			if !fits(mt.Ternary.Value, w) || !fits(mt.Ternary.Mask, w) {
+				bad = append(bad, fmt.Sprintf("table %s field %s: ternary %x&%x does not fit %d bits", e.Table, f.Name, mt.Ternary.Value, mt.Ternary.Mask, w))
+			}
+			pf.Value, pf.Mask = be(mt.Ternary.Value), be(mt.Ternary.Mask)
+			keyParts = append(keyParts, fmt.Sprintf("%d=t%d&%d", f.Id, pf.Value, pf.Mask))
+		case *p4.FieldMatch_Range_:
+			pf.Kind = "RANGE"
+			if f.GetMatchType() != p4cfg.MatchField_RANGE {
+				bad = append(bad, fmt.Sprintf("table %s field %s: RANGE match on a %v field", e.Table, f.Name, f.GetMatchType()))
+			}
+			if !fits(mt.Range.Low, w) || !fits(mt.Range.High, w) {
+				bad = append(bad, fmt.Sprintf("table %s field %s: range %x-%x does not fit %d bits", e.Table, f.Name, mt.Range.Low, mt.Range.High, w))
+			}
+			pf.Low, pf.High = be(mt.Range.Low), be(mt.Range.High)
+			keyParts = append(keyParts, fmt.Sprintf("%d=r%d-%d", f.Id, pf.Low, pf.High))
+		default:
+			bad = append(bad, fmt.Sprintf("table %s field %s: unsupported match kind", e.Table, f.Name))
+		}
+		if _, dup := e.Match[f.Name]; dup {
+			bad = append(bad, fmt.Sprintf("table %s: match field %s given twice", e.Table, f.Name))
+		}
+		e.Match[f.Name] = pf
+	}
+	sort.Strings(keyParts)
+	e.Key = fmt.Sprintf("%s|p%d", strings.Join(keyParts, ","), te.Priority)
+	if forWrite && needPrio && te.Priority == 0 {
+		bad = append(bad, fmt.Sprintf("table %s has ternary/range fields but the entry has priority 0 (match %s)", e.Table, e.Key))
+	}
+	if te.Action != nil {
+		if a := te.Action.GetAction(); a != nil {
+			ad := d.actByID[a.ActionId]
+			if ad == nil {
+				bad = append(bad, fmt.Sprintf("table %s: action id %d does not exist", e.Table, a.ActionId))
+			} else {
+				e.Action = shortName(ad.Preamble.Name)
+				allowed := false
+				for _, r := range t.ActionRefs {
+					allowed = allowed || r.Id == a.ActionId
+				}
+				if !allowed {
+					bad = append(bad, fmt.Sprintf("table %s does not allow action %s", e.Table, e.Action))
+				}
+				pdef := map[uint32]*p4cfg.Action_Param{}
+				for _, p := range ad.Params {
+					pdef[p.Id] = p
+				}
+				seen := map[uint32]bool{}
+				for _, p := range a.Params {
+					pd := pdef[p.ParamId]
+					if pd == nil {
+						bad = append(bad, fmt.Sprintf("action %s: parameter id %d is not declared", e.Action, p.ParamId))
+						continue
+					}
+					if seen[p.ParamId] {
+						bad = append(bad, fmt.Sprintf("action %s: parameter %s given twice", e.Action, pd.Name))
+					}
+					seen[p.ParamId] = true
+					if !fits(p.Value, pd.Bitwidth) {
+						bad = append(bad, fmt.Sprintf("action %s parameter %s: value %x does not fit %d bits", e.Action, pd.Name, p.Value, pd.Bitwidth))
+					}
+					e.Params[pd.Name] = be(p.Value)
+				}
+				for id, pd := range pdef {
+					if !seen[id] {
+						bad = append(bad, fmt.Sprintf("action %s: declared parameter %s is missing", e.Action, pd.Name))
+					}
+				}
+			}
+		}
+	}
+	return e, bad
+}
+
+func (d *P4d) track() func() {
+	n := d.inflight.Add(1)
+	for {
+		m := d.maxInfl.Load()
+		if n <= m || d.maxInfl.CompareAndSwap(m, n) {
+			break
+		}
+	}
+	return func() { d.inflight.Add(-1) }
+}
+
+// Write applies the updates with P4Runtime semantics (CONTINUE_ON_ERROR).
+func (d *P4d) Write(ctx context.Context, req *p4.WriteRequest) (*p4.WriteResponse, error) {
+	defer d.track()()
+	d.mu.Lock()
+	delay := d.Delay
+	d.mu.Unlock()
+	if delay != nil {
+		if dl := delay(); dl > 0 {
+			time.Sleep(dl)
+		}
+	}
+	d.mu.Lock()
+	defer d.mu.Unlock()
+	d.writeN++
+	w := PWrite{Seq: Events.Add(1), N: len(req.Updates), Updates: req.Updates}
+	for _, u := range req.Updates {
+		kind := u.Type.String()
+		switch {
+		case u.Entity.GetTableEntry() != nil:
+			t := d.tblByID[u.Entity.GetTableEntry().TableId]
+			if t != nil {
+				kind += " " + shortName(t.Preamble.Name)
+			} else {
+				kind += " table?"
+			}
+		case u.Entity.GetMeterEntry() != nil:
+			kind += " meter"
+		case u.Entity.GetCounterEntry() != nil:
+			kind += " counter"
+		default:
+			kind += " other"
+		}
+		w.Kinds = append(w.Kinds, kind)
+	}
+	if f, ok := d.FailAt[d.writeN]; ok {
+		w.Failed = f
+		d.log = append(d.log, w)
+		if f == "UNAVAILABLE" {
+			return nil, status.Error(codes.Unavailable, "injected failure")
+		}
+		c := codes.InvalidArgument
+		switch f {
+		case "RESOURCE_EXHAUSTED":
+			c = codes.ResourceExhausted
+		case "NOT_FOUND":
+			c = codes.NotFound
+		}
+		return nil, d.errStatus(len(req.Updates), func(int) codes.Code { return c })
+	}
+	errs := make([]codes.Code, len(req.Updates))
+	anyErr := false
+	for i, u := range req.Updates {
+		errs[i] = d.apply(u, w.Seq)
+		anyErr = anyErr || errs[i] != codes.OK
+		w.Errors = append(w.Errors, int32(errs[i]))
+	}
+	d.log = append(d.log, w)
+	if anyErr {
+		return nil, d.errStatus(len(req.Updates), func(i int) codes.Code { return errs[i] })
+	}
+	return &p4.WriteResponse{}, nil
+}
+
+func (d *P4d) errStatus(n int, f func(i int) codes.Code) error {
+	st := status.New(codes.Unknown, "write failed")
+	var details []protoadapt.MessageV1
+	for i := 0; i < n; i++ {
+		c := f(i)
+		details = append(details, &p4.Error{CanonicalCode: int32(c), Message: c.String()})
+	}
+	ds, err := st.WithDetails(details...)
+	if err != nil {
+		return st.Err()
+	}
+	return ds.Err()
+}
+
+func (d *P4d) apply(u *p4.Update, seq int64) codes.Code {
+	switch {
+	case u.Entity.GetTableEntry() != nil:
+		te := u.Entity.GetTableEntry()
+		e, bad := d.decode(te, u.Type != p4.Update_DELETE)
+		d.Invalid = append(d.Invalid, bad...)
+		if e == nil {
+			return codes.InvalidArgument
+		}
+		e.Seq = seq
+		tbl := d.tables[te.TableId]
+		if tbl == nil {
+			tbl = map[string]*PEntry{}
+			d.tables[te.TableId] = tbl
+		}
+		_, exists := tbl[e.Key]
+		switch u.Type {
+		case p4.Update_INSERT:
+			if exists {
+				return codes.AlreadyExists
+			}
+			tbl[e.Key] = e
+		case p4.Update_MODIFY:
+			if !exists {
+				return codes.NotFound
+			}
+			tbl[e.Key] = e
+		case p4.Update_DELETE:
+			if !exists {
+				return codes.NotFound
+			}
+			delete(tbl, e.Key)
+		default:
+			return codes.InvalidArgument
+		}
+	case u.Entity.GetMeterEntry() != nil:
+		me := u.Entity.GetMeterEntry()
+		md := d.meterByID[me.MeterId]
+		if md == nil {
+			d.Invalid = append(d.Invalid, fmt.Sprintf("meter id %d does not exist in the P4Info", me.MeterId))
+			return codes.InvalidArgument
+		}
+		if me.Index == nil || me.Index.Index < 0 || me.Index.Index >= md.Size {
+			idx := int64(-1)
+			if me.Index != nil {
+				idx = me.Index.Index
+			}
+			d.Invalid = append(d.Invalid, fmt.Sprintf("meter %s: index %d outside the declared size %d", shortName(md.Preamble.Name), idx, md.Size))
+			return codes.InvalidArgument
+		}
+		if u.Type != p4.Update_MODIFY {
+			return codes.InvalidArgument
+		}
+		d.meters[[2]int64{int64(me.MeterId), me.Index.Index}] = &PMeter{Meter: shortName(md.Preamble.Name), Index: me.Index.Index, Cfg: me.Config, Seq: seq}
+	case u.Entity.GetCounterEntry() != nil:
+		ce := u.Entity.GetCounterEntry()
+		cd := d.ctrByID[ce.CounterId]
+		if cd == nil {
+			d.Invalid = append(d.Invalid, fmt.Sprintf("counter id %d does not exist in the P4Info", ce.CounterId))
+			return codes.InvalidArgument
+		}
+		if ce.Index == nil || ce.Index.Index < 0 || ce.Index.Index >= cd.Size {
+			idx := int64(-1)
+			if ce.Index != nil {
+				idx = ce.Index.Index
+			}
+			d.Invalid = append(d.Invalid, fmt.Sprintf("counter %s: index %d outside the declared size %d", shortName(cd.Preamble.Name), idx, cd.Size))
+			return codes.InvalidArgument
+		}
+		d.counters[[2]int64{int64(ce.CounterId), ce.Index.Index}]++
+	default:
+		return codes.Unimplemented
+	}
+	return codes.OK
+}
+
+// Read answers wildcard reads of table entries (what the agent's ClearTables uses).
+func (d *P4d) Read(req *p4.ReadRequest, s p4.P4Runtime_ReadServer) error {
+	defer d.track()()
+	d.mu.Lock()
+	var out []*p4.Entity
+	for _, ent := range req.Entities {
+		te := ent.GetTableEntry()
+		if te == nil {
+			continue
+		}
+		for id, tbl := range d.tables {
+			if te.TableId != 0 && te.TableId != id {
+				continue
+			}
+			keys := make([]string, 0, len(tbl))
+			for k := range tbl {
+				keys = append(keys, k)
+			}
+			sort.Strings(keys)
+			for _, k := range keys {
+				out = append(out, &p4.Entity{Entity: &p4.Entity_TableEntry{TableEntry: d.encode(tbl[k])}})
+			}
+		}
+	}
+	d.mu.Unlock()
+	return s.Send(&p4.ReadResponse{Entities: out})
+}
+
+// encode rebuilds a wire entry from the stored raw update (kept in the write log).
+func (d *P4d) encode(e *PEntry) *p4.TableEntry {
+	for i := len(d.log) - 1; i >= 0; i-- {
+		if d.log[i].Seq != e.Seq {
+			continue
+		}
+		for _, u := range d.log[i].Updates {
+			if te := u.Entity.GetTableEntry(); te != nil && te.TableId == e.TableID {
+				if x, _ := d.decode(te, false); x != nil && x.Key == e.Key {
+					return te
+				}
+			}
+		}
+	}
+	// injected junk has no logged update: synthesise from the decoded form
+	return e.raw()
+}
+
+var rawOf = map[*PEntry]*p4.TableEntry{}
+
+func (e *PEntry) raw() *p4.TableEntry {
+	if r, ok := rawOf[e]; ok {
+		return r
+	}
+	return &p4.TableEntry{TableId: e.TableID, Priority: e.Priority}
+}
+
+// InjectRaw installs an entry directly (junk left behind by a previous incarnation).
+func (d *P4d) InjectRaw(te *p4.TableEntry) {
+	d.mu.Lock()
+	defer d.mu.Unlock()
+	e, _ := d.decode(te, false)
+	if e == nil {
+		return
+	}
+	rawOf[e] = te
+	if d.tables[te.TableId] == nil {
+		d.tables[te.TableId] = map[string]*PEntry{}
+	}
+	d.tables[te.TableId][e.Key] = e
+}
+
+// ---- observation ----
+
+// PSnap is a copy of the switch state.
+type PSnap struct {
+	Tables map[string][]PEntry // by short table name, sorted by key
+	Meters []PMeter            // only cells with a non-default configuration
+}
+
+// Snap returns the current state.
+func (d *P4d) Snap() PSnap {
+	d.mu.Lock()
+	defer d.mu.Unlock()
+	s := PSnap{Tables: map[string][]PEntry{}}
+	for _, tbl := range d.tables {
+		for _, e := range tbl {
+			s.Tables[e.Table] = append(s.Tables[e.Table], *e)
+		}
+	}
+	for k := range s.Tables {
+		l := s.Tables[k]
+		sort.Slice(l, func(i, j int) bool { return l[i].Key < l[j].Key })
+	}
+	for _, m := range d.meters {
+		if m.Cfg != nil && (m.Cfg.Cir != 0 || m.Cfg.Pir != 0 || m.Cfg.Cburst != 0 || m.Cfg.Pburst != 0) {
+			s.Meters = append(s.Meters, *m)
+		}
+	}
+	sort.Slice(s.Meters, func(i, j int) bool {
+		if s.Meters[i].Meter != s.Meters[j].Meter {
+			return s.Meters[i].Meter < s.Meters[j].Meter
+		}
+		return s.Meters[i].Index < s.Meters[j].Index
+	})
+	return s
+}
+
+// Meter returns the stored cell (nil when never written).
+func (d *P4d) Meter(name string, index int64) *PMeter {
+	d.mu.Lock()
+	defer d.mu.Unlock()
+	for _, m := range d.meters {
+		if m.Meter == name && m.Index == index {
+			c := *m
+			return &c
+		}
+	}
+	return nil
+}
+
+func (d *P4d) LogLen() int {
+	d.mu.Lock()
+	defer d.mu.Unlock()
+	return len(d.log)
+}
+
+func (d *P4d) LogSince(i int) []PWrite {
+	d.mu.Lock()
+	defer d.mu.Unlock()
+	if i > len(d.log) {
+		i = len(d.log)
+	}
+	return append([]PWrite(nil), d.log[i:]...)
+}
+
+// Arm resets the Write ordinal and installs a fault plan.
+func (d *P4d) Arm(plan map[int]string) {
+	d.mu.Lock()
+	d.writeN = 0
+	d.FailAt = plan
+	if d.FailAt == nil {
+		d.FailAt = map[int]string{}
+	}
+	d.mu.Unlock()
+}
+
+// WriteCount returns the number of Write RPCs since Arm.
+func (d *P4d) WriteCount() int {
+	d.mu.Lock()
+	defer d.mu.Unlock()
+	return d.writeN
+}
+
+// InvalidSince returns the conformance violations recorded from index i on.
+func (d *P4d) InvalidSince(i int) []string {
+	d.mu.Lock()
+	defer d.mu.Unlock()
+	if i > len(d.Invalid) {
+		i = len(d.Invalid)
+	}
+	return append([]string(nil), d.Invalid[i:]...)
+}
+
+func (d *P4d) PktLen() int {
+	d.mu.Lock()
+	defer d.mu.Unlock()
+	return len(d.pkts)
+}
+
+func (d *P4d) PktSince(i int) []PktOut {
+	d.mu.Lock()
+	defer d.mu.Unlock()
+	if i > len(d.pkts) {
+		i = len(d.pkts)
+	}
+	return append([]PktOut(nil), d.pkts[i:]...)
+}
+
+func (d *P4d) WaitQuiet(max time.Duration) bool {
+	deadline := time.Now().Add(max)
+	for time.Now().Before(deadline) {
+		if d.inflight.Load() == 0 {
+			return true
+		}
+		time.Sleep(200 * time.Microsecond)
+	}
+	return false
+}
+
+// WaitReady waits until the agent has initialised the switch (both interfaces entries present).
+func (d *P4d) WaitReady(max time.Duration) bool {
+	deadline := time.Now().Add(max)
+	for time.Now().Before(deadline) {
+		d.mu.Lock()
+		n := 0
+		for _, e := range d.tables {
+			for _, x := range e {
+				if x.Table == "interfaces" {
+					n++
+				}
+			}
+		}
+		d.mu.Unlock()
+		if n >= 2 {
+			return true
+		}
+		time.Sleep(2 * time.Millisecond)
+	}
+	return false
+}
+
+func (d *P4d) MaxInflight() int64 { return d.maxInfl.Swap(0) }
+func (d *P4d) Streams() int {
+	d.mu.Lock()
+	defer d.mu.Unlock()
+	return len(d.streams)
+}
+
+// ResetExceptInterfaces wipes every table but interfaces and all meter/counter state (harness-side).
+func (d *P4d) ResetExceptInterfaces() {
+	d.mu.Lock()
+	defer d.mu.Unlock()
+	for id, tbl := range d.tables {
+		for k, e := range tbl {
+			if e.Table != "interfaces" {
+				delete(tbl, k)
+			}
+		}
+		_ = id
+	}
+	d.meters = map[[2]int64]*PMeter{}
+	d.counters = map[[2]int64]int64{}
+}
